@@ -188,6 +188,34 @@ def _real_eval(cmds, ctx):
         return False, type(e).__name__
 
 
+def _explained_by_2rot(cmds, ctx, want):
+    """The recorded finding: op_2rot copies the third pair instead of moving it (the repository's own test pins that).
+    A mismatch of a program that contains OP_2ROT is attributed to that finding only if it DISAPPEARS when the same real
+    interpreter runs with OP_2ROT alone replaced by the consensus operation (dispatch table patched for this one call,
+    nothing else touched); any other mismatch of such a program is still reported as a violation."""
+    if not any(isinstance(c, int) and c == 0x71 for c in cmds):
+        return False
+    from buidl import op as _op
+
+    def consensus_2rot(stack):
+        if len(stack) < 6:
+            return False
+        pair = stack[-6:-4]
+        del stack[-6:-4]
+        stack.extend(pair)
+        return True
+    tables = [t for t in (_op.OP_CODE_FUNCTIONS, getattr(_op, "TAPROOT_OP_CODE_FUNCTIONS", None)) if t is not None]
+    saved = [t.get(0x71) for t in tables]
+    for t in tables:
+        t[0x71] = consensus_2rot
+    try:
+        got, _ = _real_eval(cmds, ctx)
+    finally:
+        for t, f in zip(tables, saved):
+            t[0x71] = f
+    return got == want
+
+
 def _out_of_scope(cmds, ctx):
     """True when some arithmetic opcode meets an operand longer than 4 bytes while consensus executes the program
     (the run with CScriptNum's 4-byte limit differs from the run without it): such programs are outside the property
@@ -227,7 +255,7 @@ def _label(cmds, ctx, real_ok, exc):
         feats.append("push > 520 bytes")
     return "accept/reject mismatch (consensus %s, buidl %s%s); program uses %s" % (
         "accepts" if not real_ok else "rejects", "accepts" if real_ok else "rejects", " by raising " + exc if exc else "",
-        ", ".join(feats) or "none of the opcodes with known findings")
+        ", ".join(feats) or "no stack-index, timelock or multi-ELSE opcode")
 
 
 def programs(seed, tier):
@@ -260,10 +288,15 @@ def programs(seed, tier):
         elif want != got:
             lab = _label(cmds, ctx, got, exc)
             key = lab.split(";")[-1] if "mismatch" in lab else "final-truthiness"
+            by_2rot = _explained_by_2rot(cmds, ctx, want)
+            if by_2rot:
+                key = "explained by the recorded OP_2ROT finding"
+                lab += " -- the mismatch disappears with the consensus OP_2ROT in the dispatch table (recorded finding)"
             lst = failures.setdefault(key, [])
             if len(lst) < 2 or (len(lst) < 4 and len(cmds) < min(len(f["inputs"]["program"]) for f in lst)):
                 lst.append({"what": "programs[%s]: %s" % (family, lab),
-                            "inputs": {"program": _fmt(cmds), "cmds": jsonable(cmds), "ctx": ctx},
+                            "inputs": {"program": _fmt(cmds), "cmds": jsonable(cmds), "ctx": ctx,
+                                       "explained_by": "op_2rot" if by_2rot else ""},
                             "violated": ["Script(cmds).evaluate(tx, 0) == spec.script_ops.eval_script(cmds, ctx): consensus %s, buidl %s%s"
                                          % (want, got, " (raised %s)" % exc if exc else "")]})
 
